@@ -44,6 +44,7 @@ type WEnv struct {
 	Now     func() time.Time
 	Table   func() (int, int, bool)
 	Gates   bool // gated starts are possible (deterministic environment only)
+	Fault   func() // makes the storage behind the backend fail for a moment (nil: not available)
 	PastWrites bool // records may be written with an expiry that is already in the past (backends without TTL clamping)
 }
 
@@ -191,6 +192,7 @@ func runWait(c WCase, env *WEnv, info *WInfo, livep *[]*wtr) *vstat.Violation {
 		where := fmt.Sprintf("step #%d %s", i, describeW(op))
 		k := op.Key & 1
 		cause := op.K
+		faulted := false
 		pastNow = op.Past && env.PastWrites && env.Advance != nil
 		switch op.K {
 		case "start":
@@ -226,6 +228,13 @@ func runWait(c WCase, env *WEnv, info *WInfo, livep *[]*wtr) *vstat.Violation {
 			}()
 			*livep = append(*livep, w)
 			cause = "immediate"
+		case "fault":
+			if env.Fault == nil {
+				continue
+			}
+			env.Fault() // every storage command fails for a short while; waiters that poll meanwhile see an error
+			faulted = true
+			info.class("storage_fault_while_waiting")
 		case "ungate":
 			var held []*wtr
 			for _, w := range *livep {
@@ -383,6 +392,11 @@ func runWait(c WCase, env *WEnv, info *WInfo, livep *[]*wtr) *vstat.Violation {
 			default:
 			}
 			if !(absent || changed || w.cancelled) {
+				if returned && faulted && w.err != nil && !isClass(w.err, gerrors.ErrNotExist) && !gerrors.Is(w.err, context.Canceled) {
+					w.cancel()
+					info.class("waiter_gave_up_on_storage_error")
+					continue // legitimate: it reports the storage's error, it does not claim a change
+				}
 				if returned {
 					return vstat.V(env.Name+":wait-spurious", "after %s: waiter #%d on %q returned %s although the key exists with the awaited version and its context is live", where, w.id, name(w.key), errName(w.err))
 				}
@@ -394,6 +408,9 @@ func runWait(c WCase, env *WEnv, info *WInfo, livep *[]*wtr) *vstat.Violation {
 			}
 			ok := (w.err == nil && changed) || (absent && isClass(w.err, gerrors.ErrNotExist)) ||
 				(w.cancelled && w.err != nil && (w.err == context.Canceled || gerrors.Is(w.err, context.Canceled)))
+			if !ok && faulted && w.err != nil && !isClass(w.err, gerrors.ErrNotExist) && !gerrors.Is(w.err, context.Canceled) {
+				ok = true // the waiter gave up with the storage's own error: not one of the three verdicts, nothing is claimed
+			}
 			if !ok {
 				return vstat.V(env.Name+":wait-result", "after %s: waiter #%d on %q returned %s but absent=%v changed=%v cancelled=%v", where, w.id, name(w.key), errName(w.err), absent, changed, w.cancelled)
 			}
@@ -437,6 +454,8 @@ func describeW(o WOp) string {
 		return fmt.Sprintf("cancel(%d)", o.W)
 	case "ungate":
 		return fmt.Sprintf("ungate(%d)", o.W)
+	case "fault":
+		return "storage-fault"
 	case "advance":
 		return fmt.Sprintf("advance(%dmin)", o.Min)
 	case "putmany":
